@@ -66,6 +66,8 @@ pub struct Mix {
     pub shuffle: bool,
     /// the scalar claim `ssn` of every credential is the zero scalar (the value whose message term vanishes)
     pub zero_ssn: bool,
+    /// every credential is issued by the first issuer (several signature statements carry the same issuer data)
+    pub same_issuer: bool,
 }
 
 impl Mix {
@@ -73,7 +75,7 @@ impl Mix {
         format!(
             "creds={} claims={} disclosed={:?} rev={} mem={} com={:?} range={:?} verenc={:?} ved={:?} eq={} age={} shuffled={}{}",
             self.n_creds, self.n_claims, self.disclosed, self.revocation, self.membership, self.commitment, self.range, self.verenc, self.ved, self.equality, self.age, self.shuffle,
-            if self.zero_ssn { " ssn=0" } else { "" }
+            if self.zero_ssn { " ssn=0" } else if self.same_issuer { " same-issuer" } else { "" }
         )
     }
     pub fn random(rng: &mut Rng, heavy: bool) -> Mix {
@@ -102,6 +104,7 @@ impl Mix {
             m.ved = Some(rng.below(n_claims as u64) as usize);
         }
         m.shuffle = rng.chance(1, 3);
+        m.same_issuer = n_creds > 1 && rng.chance(1, 3);
         // disclosure: any claim not used by a predicate of credential 0 / equality
         for c in 0..n_creds {
             let mut used: BTreeSet<usize> = BTreeSet::new();
@@ -156,14 +159,14 @@ pub fn g1_from_dl(k: Scalar) -> G1Projective {
 impl<S: ShortGroupSignatureScheme> Scn<S> {
     /// Build a scenario: `n_creds` issuers (own keys), one credential each, statements per `mix`.
     pub fn build(rng: &mut Rng, mix: &Mix) -> Scn<S> {
-        let mut issuers = vec![];
-        let mut publics = vec![];
+        let mut issuers: Vec<Issuer<S>> = vec![];
+        let mut publics: Vec<credx::issuer::IssuerPublic<S>> = vec![];
         let mut bundles = vec![];
         let mut sig_ids = vec![];
         let shared_name = "Alice Example";
         for c in 0..mix.n_creds {
             let schema = cred_schema(mix.n_claims, &[]);
-            let (_p, mut issuer) = Issuer::<S>::new(&schema);
+            let (_p, mut issuer) = if mix.same_issuer && c > 0 { (publics[0].clone(), issuers[0].clone()) } else { Issuer::<S>::new(&schema) };
             let name = if mix.equality || c == 0 { shared_name.to_string() } else { format!("Holder {}", c) };
             let cid = format!("cred-{}-{}", c, rng.below(1 << 30));
             let age = if c == 0 { mix.age } else { rng.range(-10, 90) };
@@ -175,6 +178,12 @@ impl<S: ShortGroupSignatureScheme> Scn<S> {
             let bundle = issuer.sign_credential(&claims).expect("sign");
             publics.push(bundle.issuer.clone());
             bundles.push(bundle);
+            if mix.same_issuer && c > 0 {
+                // one issuer object: keep its registry bookkeeping in every copy
+                for i in issuers.iter_mut() {
+                    *i = issuer.clone();
+                }
+            }
             issuers.push(issuer);
             sig_ids.push(format!("sig{}", c));
         }
